@@ -180,6 +180,7 @@ package dns
 //@   ensures ok:   ret2 == nil ==> off <= ret1 && (off <= len(msg) ==> ret1 <= len(msg))
 //@   ensures fail: ret2 != nil ==> ret1 == len(msg)
 //@   loop 1 invariant old(off) <= off && (old(off) <= len(msg) ==> off <= len(msg))
+//@   loop 1 invariant elems: forall k in 0..len(xs) :: xs[k] != nil
 //@   loop 1 decreases len(msg) - off
 
 //@ func noRdata [C01 C02]
@@ -218,3 +219,26 @@ package dns
 //@   loop 1 decreases len(msg) - off
 
 //@ func (*Msg).Unpack [C01 C02]
+
+// RR_Header implements RR only so that a bare header can be returned next to an error; its pack, unpack and
+// parse methods panic by design and are never invoked by the library (TypeToRR has no RR_Header entry).
+//@ func (*RR_Header).unpack
+//@   opt exclude = panics by design, not reachable from the decoders
+//@ func (*RR_Header).pack
+//@   opt exclude = panics by design, not reachable from the packers
+//@ func (*RR_Header).parse
+//@   opt exclude = panics by design, not reachable from the parser
+
+// PrivateRR delegates to user code (PrivateRdata); only the framing is under contract.
+//@ func (*PrivateRR).unpack
+//@   requires r.Data != nil
+//@   opt skip-post = ge
+
+//@ func (*SVCBMandatory).unpack
+//@   loop 1 invariant 0 <= i && i % 2 == 0 && len(b) % 2 == 0
+//@ func (*SVCBAlpn).unpack
+//@   loop 1 invariant 0 <= i
+//@ func (*SVCBIPv4Hint).unpack
+//@   loop 1 invariant 0 <= i && i % 4 == 0 && len(b) % 4 == 0
+//@ func (*SVCBIPv6Hint).unpack
+//@   loop 1 invariant 0 <= i && i % 16 == 0 && len(b) % 16 == 0
